@@ -154,4 +154,7 @@ class Cursor:
         pass
 
     def __iter__(self):
-        return iter(self._rows if self._rows is not None else [])
+        # Iterating the cursor fetches the rows: the rows delivered are
+        # not delivered again by the fetch methods and count in
+        # ``rownumber``, as the DB-API specifies for ``next()``.
+        return iter(self.fetchone, None)
